@@ -232,7 +232,12 @@ func (g *genv) text() *N {
 		// now and then a chunk larger than any buffer the writers might keep (4 KiB, 64 KiB)
 		if g.p.LongText && g.pick("longtext", 30) == 0 {
 			n := []int{4096, 4200, 9000, 70000}[g.pick("longlen", 4)]
-			return Text(" \n" + strings.Repeat("x", n) + " \n ")
+			// with and without white space at its edges, and made of one character or of words
+			body := strings.Repeat("x", n)
+			if g.pick("longwords", 3) == 0 {
+				body = strings.Repeat("lorem=ipsum ", n/12)
+			}
+			return Text([]string{" \n", "", "="}[g.pick("longlead", 3)] + body + []string{" \n ", "", "\n"}[g.pick("longtail", 3)])
 		}
 	}
 	return Text(rapid.SampledFrom(al).Draw(g.t, "text"))
